@@ -872,8 +872,23 @@ def check(repo, rep, tier):
   rule_stopping(repo, rep)
   rule_spd_floor(repo, rep)
   rule_loss_gradient_inputs(repo, rep)
-  rule_formulas(repo, rep)
+  # loss, regulariser and gradient are decided as values by interpretation
+  # (c12b); the older text-matching rule on the same statements
+  # (rule_formulas) and the per-function distance / mask checks of
+  # rule_distances raised false alarms on helper extraction and are only
+  # consulted where the interpretation is undecided
+  from . import c12b
+  b0 = len(rep.obs)
+  c12b.rule_lsml_values(repo, rep)
+  decided = all(o['status'] in ('derived', 'refuted') for o in rep.obs[b0:])
+  b1 = len(rep.obs)
+  if not decided:
+    rule_formulas(repo, rep)
   rule_distances(repo, rep)
+  if decided:
+    rep.obs[b1:] = [o for o in rep.obs[b1:]
+                    if not (':d(' in o['construct'] or
+                            o['construct'].endswith(':violations'))]
   rule_all_steps_tried(repo, rep)
   # the caller's weights are not modified (FRESH rule of C17, LSML only)
   before = len(rep.obs)
